@@ -27,11 +27,14 @@ type Mutant struct {
 	} `json:"edits"`
 }
 
+var selftestReplay bool
+
 func cmdSelftest(args []string) int {
 	fs := flag.NewFlagSet("selftest", flag.ExitOnError)
 	repo := fs.String("repo", "/repo", "")
 	verif := fs.String("verif", "/verif", "")
 	par := fs.Int("j", 4, "parallel mutants")
+	fs.BoolVar(&selftestReplay, "replay", false, "also replay counterexamples of killed mutants against the (mutated) real code")
 	fs.Parse(args)
 	var props []string
 	if fs.NArg() > 0 {
@@ -116,7 +119,7 @@ func runMutant(repo, verif, prop, file string) (bool, string) {
 			return false, "mutant does not apply: " + err.Error()
 		}
 	}
-	out := runCheck(checkOpts{prop: prop, tier: "quick", repo: repo, verif: verif, overlay: overlay, quiet: true, noEvidence: true, workers: 4, mutantTag: strings.TrimSuffix(filepath.Base(file), ".json")})
+	out := runCheck(checkOpts{prop: prop, tier: "quick", repo: repo, verif: verif, overlay: overlay, quiet: true, noEvidence: true, workers: 4, noReplay: !selftestReplay, mutantTag: strings.TrimSuffix(filepath.Base(file), ".json")})
 	var failed []string
 	for _, r := range out.Results {
 		if !r.OK {
@@ -148,6 +151,3 @@ func runMutant(repo, verif, prop, file string) (bool, string) {
 	return false, "SURVIVED (no obligation failed)"
 }
 
-func tryReplay(o checkOpts, r *ObligResult, p *Prog, base string, model map[string]string) (bool, string, string) {
-	return false, "", ""
-}
